@@ -73,13 +73,12 @@ func (this *minerRefundExecutor) Execute(transaction *types.Transaction, header 
 	this.logger.Infof(msg)
 	refundInfos := types.GetRefundInfo(context)
 	refundInfo, ok := refundInfos[refundHeight]
-	if ok {
-		refundInfo.AddRefundInfo(addr, money)
-	} else {
+	if !ok {
 		refundInfo = types.RefundInfoList{}
-		refundInfo.AddRefundInfo(addr, money)
-		refundInfos[refundHeight] = refundInfo
 	}
+	// the map holds the list by value: write it back, AddRefundInfo may have appended to the copy
+	refundInfo.AddRefundInfo(addr, money)
+	refundInfos[refundHeight] = refundInfo
 
 	return true, msg
 }
